@@ -1,7 +1,7 @@
 #!/bin/bash
-# usage: coqgoal.sh File.v LINE  -> prints goals after executing up to (and including) line LINE
+# usage: lib/coqgoal.sh Proofs/File.v LINE [TAIL]  -> goals after executing the file up to and including LINE
+here=$(cd "$(dirname "$0")/.." && pwd)
 f=$1; n=$2
-head -n $n $f > /tmp/_goal_$$.v
-echo "Show. " >> /tmp/_goal_$$.v
-(cd /verif/coq && coqtop -Q . Hts -batch -l /tmp/_goal_$$.v 2>&1 | tail -${3:-60})
-rm -f /tmp/_goal_$$.v
+tmp=$(mktemp /tmp/_goal_XXXXXX.v)
+(cd "$here/coq" && head -n "$n" "$f" > "$tmp"; echo "Show. " >> "$tmp"; timeout 600 coqtop -Q . Hts -batch -l "$tmp" 2>&1 | tail -"${3:-60}")
+rm -f "$tmp"
